@@ -1,5 +1,6 @@
 """C13 — Error responses follow one contract and never leak internal detail."""
 import itertools
+import re
 
 import z3
 
@@ -70,6 +71,7 @@ def run(tier, replay_file=None):
                        'the request id handed to into_response is a legal header value (the server generates UUIDs)',
                        'request-id uniqueness (Uuid::new_v4) and stamping over request sequences are outside this check']
     rid, msg, internal, code_s = sstr('request_id'), sstr('message'), sstr('internal_message'), sstr('error_code')
+    SYMS.update(msg=msg, code=code_s, internal=internal)
     st = z3.BitVec('status', 16)
     hvals = [sstr('hdr_value0'), sstr('hdr_value1')]
     distinct = [z3.Distinct(rid.term, msg.term, internal.term, code_s.term, hvals[0].term, hvals[1].term), hv_ok(rid.term)]
@@ -85,15 +87,20 @@ def run(tier, replay_file=None):
         if ctor == 'for_bad_request': return ex.call_fn(F[ctor], [code, msg]), msg, msg, 400, code
         if ctor == 'for_client_error_with_status': return ex.call_fn(F[ctor], [code, mk_client_status(ex)]), None, None, st, code
         if ctor == 'for_not_found': return ex.call_fn(F[ctor], [code, internal]), reason[404], internal, 404, code
+        if ctor == 'struct_literal':
+            # the fields of HttpError are public: any status, any (also empty) external message, any internal message
+            e = ex.mk_struct('HttpError', status_code=Adt('ErrorStatusCode', 0, {None: [Cell(st)]}), error_code=code, external_message=msg, internal_message=internal, headers=ex.none())
+            return e, msg, internal, st, code
         raise Unsupported(ctor)
 
     HEADER_PLANS = [(), (('add', 'allow'),), (('with', 'x-custom'),), (('add', 'allow'), ('add', 'allow')), (('add', 'x-custom'), ('with', 'allow')),
                     (('with', 'x-custom'), ('with', 'x-custom')), (('add', 'allow'), ('with', 'allow'))]
     n_resp = 0
-    for ctor in CONSTRUCTORS:
+    for ctor in CONSTRUCTORS + ['struct_literal']:
         for has_code in ((False, True) if ctor != 'for_internal_error' else (False,)):
             for plan in (HEADER_PLANS if tier == 'thorough' or ctor in ('for_client_error', 'for_not_found') else HEADER_PLANS[:2]):
                 base = distinct + ([z3.UGE(st, 400), z3.ULE(st, 499)] if 'client_error' in ctor and ctor != 'for_bad_request' or ctor == 'for_client_error_with_status' else [])
+                if ctor == 'struct_literal': base = distinct + [z3.UGE(st, 400), z3.ULE(st, 599)]
                 def h(ex):
                     e, ext, intl, status, code = build(ex, ctor, has_code)
                     ec = Cell(e)
@@ -194,6 +201,7 @@ def run(tier, replay_file=None):
 
     stamping(chk, ex)
     request_ids(chk, ex)
+    error_body_serialization(chk, ex)
     status_types(chk, ex)
     kani_status_types(chk)
     witnesses(chk)
@@ -244,6 +252,56 @@ def stamping(chk, ex):
         ex.models = saved_models
 
 
+def error_body_serialization(chk, ex):
+    """the `#[derive(Serialize)]` code of HttpErrorResponseBody (generated inside dropshot, present in its MIR) run against a recording
+    serializer: request_id and message are always written, error_code exactly when there is one - whatever its text"""
+    f = ex.fns
+    c = [n for n in f if re.search(r'^error::_::<impl at [^>]*>::serialize$', n) and 'HttpErrorResponseBody' in f[n].locals.get('_1', '')]
+    if len(c) != 1: raise Inconclusive(f'cannot locate the derived Serialize impl of HttpErrorResponseBody: {c}')
+    rid, msg, code_s = sstr('body_request_id'), sstr('body_message'), sstr('body_error_code')
+    class Rec:
+        def __init__(self): self.fields, self.skipped, self.ended = [], [], False
+        def __repr__(self): return f'Rec({[k for k, _ in self.fields]})'
+    local = [(r'^<__S as [\w:]*Serializer>::serialize_struct$', lambda ex, a, c: ex.ok(Rec())),
+             (r'^<<__S as [\w:]*Serializer>::SerializeStruct as [\w:]*SerializeStruct>::serialize_field::<', lambda ex, a, c: (dv(a[0]).fields.append((dv(a[1]), dv(a[2]))), ex.ok(Tup([])))[1]),
+             (r'^<<__S as [\w:]*Serializer>::SerializeStruct as [\w:]*SerializeStruct>::skip_field$', lambda ex, a, c: (dv(a[0]).skipped.append(dv(a[1])), ex.ok(Tup([])))[1]),
+             (r'^<<__S as [\w:]*Serializer>::SerializeStruct as [\w:]*SerializeStruct>::end$', lambda ex, a, c: ex.ok(dv(a[0])))]
+    saved = ex.models
+    ex.models = local + ex.models
+    try:
+        for has_code in (False, True):
+            def h(ex):
+                body = ex.mk_struct('HttpErrorResponseBody', request_id=rid, error_code=ex.some(code_s) if has_code else ex.none(), message=msg)
+                return ex.call_fn(c[0], [Ref(Cell(body)), Opaque('serializer')])
+            outs = ex.explore(h, [])
+            chk.paths += len(outs)
+            if not outs: raise Inconclusive(f'vacuity: derived Serialize of HttpErrorResponseBody has no path; {ex.unsupported_paths[-2:]}')
+            for pc, (k, r) in outs:
+                tag = f'error-body-serialization/{"code" if has_code else "nocode"}'
+                if k != 'ok' or r.discr != 0:
+                    m = chk.prove(f'{tag}/serialises', pc, z3.BoolVal(True))
+                    if m is not None: chk.mismatches.append(f'serialising the error body fails: {r}')
+                    continue
+                rec = dv(ex.payload(r))
+                got = {k_: v for k_, v in rec.fields}
+                def is_s(v, s_): return isinstance(dv(v), SymStr) and dv(v).term.eq(s_.term)
+                good = is_s(got.get('request_id'), rid) and is_s(got.get('message'), msg) and set(got) == ({'request_id', 'message', 'error_code'} if has_code else {'request_id', 'message'})
+                if good and has_code:
+                    ec = dv(got['error_code'])
+                    good = isinstance(ec, Adt) and ec.ty == 'Option' and ec.discr == 1 and is_s(ex.payload(ec), code_s)
+                m = chk.prove(f'{tag}/every-field-written-code-iff-present', pc, z3.BoolVal(not good))
+                if m is not None:
+                    from mirsym.models import StrLen
+                    empty = has_code and m.eval(StrLen(code_s.term), model_completion=True).as_long() == 0
+                    case = {'op': 'http_error', 'ctor': 'for_bad_request', 'status': 400, 'code': ('' if empty else 'E_CODE') if has_code else None, 'message': 'external-msg', 'internal': 'internal-secret',
+                            'headers': [], 'request_id': 'rid-123'}
+                    nat = replay([case])[0]
+                    chk.counterexample(f'the error body is serialised with fields {sorted(got)} (skipped {rec.skipped}) for an error {"with" if has_code else "without"} a code'
+                                       f'{" (the empty string)" if empty else ""} -> native body {nat.get("body")}', case, not native_ok(case, nat), role='error-body')
+    finally:
+        ex.models = saved
+
+
 def id_sequence_case():
     """two keep-alive connections, three pipelined requests each: a handler that reports the id it was given, a 404 and a 400 from the framework"""
     def req(method, target): return {'raw': f'{method} {target} HTTP/1.1\r\nHost: replay\r\nContent-Length: 0\r\n\r\n'}
@@ -291,7 +349,9 @@ def request_ids(chk, ex):
              (r'^Method::as_str$', lambda ex, a, c: 'GET'),
              (r'Instant::now$', lambda ex, a, c: Opaque('instant')), (r'Instant::elapsed$', lambda ex, a, c: Opaque('duration')), (r'Duration::as_micros$', lambda ex, a, c: Opaque('micros')),
              (r'^scopeguard::guard::|^guard::<', lambda ex, a, c: Opaque('scopeguard', a)), (r'ScopeGuard::<.*>::into_inner$', lambda ex, a, c: Tup([]))]
-    assume = [z3.Distinct(*[g.term for g in gen], ext.term, intl.term)] + [hv_ok(g.term) for g in gen]
+    from mirsym.models import StrLen
+    # this part is about ids: the error the stub answers with has a non-empty external message (message handling is checked per constructor above)
+    assume = [z3.Distinct(*[g.term for g in gen], ext.term, intl.term), StrLen(ext.term) > 0] + [hv_ok(g.term) for g in gen]
     saved = ex.models
     ex.models = local + G.MODELS + AM.MODELS + ex.models
     try:
@@ -457,11 +517,19 @@ def report_status(chk, m, x, ty, name, what):
     chk.counterexample(f'{what}: {ty}::{name}({v}) -> native {nat}', case, got != want, role=f'status:{ty}:{name}')
 
 
+SYMS = {}
+
+
 def report(chk, m, ctor, has_code, st, what, attached=(), leak=False):
     if m is None: return
+    from mirsym.models import StrLen
     v = m.eval(st, model_completion=True).as_long()
     case = {'op': 'http_error', 'ctor': ctor, 'status': v, 'code': 'E_CODE' if has_code else None, 'message': 'external-msg',
             'internal': 'internal-secret', 'headers': [[n, f'hv{i}', how] for i, (how, n) in enumerate(attached)], 'request_id': 'rid-123'}
+    # strings the model makes empty are empty in the replay too (the error's fields are public: set after construction where no constructor allows it)
+    zero = lambda k: k in SYMS and m.eval(StrLen(SYMS[k].term), model_completion=True).as_long() == 0
+    if zero('msg'): case['clear_external'] = True
+    if has_code and zero('code'): case['code'] = ''; case['set_code'] = ''
     nat = replay([case])[0]
     chk.counterexample(f'{what}; status {v} -> native {nat}', case, not native_ok(case, nat), role=f'error:{ctor}')
 
@@ -471,7 +539,9 @@ def native_ok(case, nat):
     ctor = case['ctor']
     tbl = {c: r for c, r in httpmodel.status_table().values()}
     want_status = {'for_internal_error': 500, 'for_unavail': 503, 'for_bad_request': 400, 'for_not_found': 404}.get(ctor, case['status'])
-    if ctor in ('for_client_error', 'for_bad_request'): want_msg = case['message']
+    if ctor == 'struct_literal': want_msg = '' if case.get('clear_external') else case['message']
+    elif case.get('clear_external'): want_msg = ''
+    elif ctor in ('for_client_error', 'for_bad_request'): want_msg = case['message']
     elif ctor == 'for_client_error_with_status': want_msg = tbl.get(case['status'])
     else: want_msg = tbl[want_status]
     want_code = 'Internal' if ctor == 'for_internal_error' else case['code']
